@@ -224,17 +224,23 @@ def obligations(tier, seed):
                   timeout=150, path_timeout=100, funcs=FUNCS))
     N = len(TABLE)
     Nq = len([t for t in TABLE if len(t[0]) <= 2])
-    for method in (0, 1):
-        obs.append(Ob(name="carried_%s" % ("method" if method else "function"), params=[("c", "int")],
-                      pre=["0 <= c < %d" % (Nq if tier == "quick" else N)], body="H.carried_fn(%d, c, {ACTIVE})" % method,
-                      witness=(TABLE.index(((0, 1), 1)),), kind="F",
-                      bounds="def f(%sa, b=5) with a ReST docstring and every body of <= %d statements drawn from %d statement kinds + final in %r "
-                      "(%d bodies, exhaustive)" % ("self, " if method else "", 2 if tier == "quick" else 3, len(STMTS), FINALS, Nq if tier == "quick" else N),
-                      timeout=280 if tier == "quick" else 1800, path_timeout=120, funcs=FUNCS))
-    obs.append(Ob(name="carried_argparse", params=[("c", "int")], pre=["0 <= c < %d" % (Nq if tier == "quick" else N)],
-                  body="H.carried_argparse(c, {ACTIVE})", witness=(TABLE.index(((0, 1), 0)),), kind="F",
-                  bounds="argparse function with the same statement kinds interleaved with its add_argument calls; final `return argument_parser` or "
-                  "`return argument_parser, c`", timeout=280 if tier == "quick" else 1800, path_timeout=120, funcs=FUNCS))
+    total = Nq if tier == "quick" else N
+    chunks = 1 if tier == "quick" else 6
+    for ch in range(chunks):
+        lo, hi = total * ch // chunks, total * (ch + 1) // chunks
+        tag = "" if chunks == 1 else "_%d" % ch
+        w_fn = TABLE.index(((0, 1), 1)) if lo <= TABLE.index(((0, 1), 1)) < hi else lo
+        w_ap = TABLE.index(((0, 1), 0)) if lo <= TABLE.index(((0, 1), 0)) < hi else lo
+        for method in (0, 1):
+            obs.append(Ob(name="carried_%s%s" % ("method" if method else "function", tag), params=[("c", "int")],
+                          pre=["%d <= c < %d" % (lo, hi)], body="H.carried_fn(%d, c, {ACTIVE})" % method, witness=(w_fn,), kind="F",
+                          bounds="def f(%sa, b=5) with a ReST docstring and every body of <= %d statements drawn from %d statement kinds + final in %r "
+                          "(table entries %d..%d of %d, exhaustive)" % ("self, " if method else "", 2 if tier == "quick" else 3, len(STMTS), FINALS, lo, hi - 1, total),
+                          timeout=280 if tier == "quick" else 1800, path_timeout=120, funcs=FUNCS))
+        obs.append(Ob(name="carried_argparse%s" % tag, params=[("c", "int")], pre=["%d <= c < %d" % (lo, hi)],
+                      body="H.carried_argparse(c, {ACTIVE})", witness=(w_ap,), kind="F",
+                      bounds="argparse function with the same statement kinds interleaved with its add_argument calls; final `return argument_parser` or "
+                      "`return argument_parser, c` (table entries %d..%d)" % (lo, hi - 1), timeout=280 if tier == "quick" else 1800, path_timeout=120, funcs=FUNCS))
     for sp in SPECIAL:
         for wr in (True, False):
             if tier == "quick" and not wr and sp != "self":
